@@ -8,7 +8,7 @@ from vp import core, gen, sig as S
 
 PROP_ID = 'C13'
 LEVEL = 'exploration'
-BUDGET = {'quick': 5000, 'thorough': 120000}
+BUDGET = {'quick': 15000, 'thorough': 120000}
 RULE = ('Differential: Hypothesis draws a frame geometry, a start channel in [-3, fchans+3] (with atoms on channel '
         'centres and half-way points), a drift in [-4,4] channels per step (atom exactly 0), a level, a width in '
         '[0.05,10] channels, one of the five profile types, smearing on/off and plain/Quantity arguments; '
